@@ -16,6 +16,11 @@ LATE_SLACK_US = 3000      # same allowance as e2e.o_c08_prompt (1 ms timer granu
 def make_oracle(ctx, family):
     def o_acktrace(tr):
         bad = []
+        # an endpoint that panics while assembling / processing packets acknowledges nothing any more (e.g. the ACK
+        # frame encoder's gap arithmetic overflows when the ranges are not strictly descending)
+        if tr.end and tr.end[1] in ("panic", "crashed") and not tr.attack:
+            why = (tr.panics[0] if tr.panics else tr.end[2])[:300]
+            bad.append(("acktrace:endpoint-panic", f"the run ended with `{tr.end[1]}` at {tr.end[0]}us: {why}"))
         for ep in ("s", "c"):
             if tr.attack and ep == "c":
                 continue      # the attacker's packets are not the implementation's choice
@@ -39,7 +44,8 @@ def make_oracle(ctx, family):
                         if family == "sink" and ep == "s":
                             what = (f"the ACK frame in packet {op.split()[2]}" if op.startswith("tx") and op.split()[4] != "-"
                                     else "still no ACK frame")
-                            bad.append(("acktrace:ack-late", f"endpoint {ep} (receiver only) at {op.split()[1]}us: {what}, {late}us after the model's "
+                            t_op = op.split()[1] if op[:2] in ("rx", "tx") else op.split()[-1]
+                            bad.append(("acktrace:ack-late", f"endpoint {ep} (receiver only) at {t_op}us: {what}, {late}us after the model's "
                                         f"deadline (forced transmission interest / delay-timer expiry); op `{op}`"))
                             break
                         ctx.count("acktrace:soft:late-on-sending-endpoint")
